@@ -143,3 +143,36 @@ def run_failing(model, spec, trip=None):
     finally:
         if trip is not None:
             trip["armed"] = False
+
+
+def run_mirror(model, cfg, teams, call, spec):
+    """The judged call itself, made once BEFORE on throw-away ratings with ONE number replaced by a Decimal / Fraction of exactly the same
+    value (`Decimal(1) == 1`, equal hashes): rejected with TypeError by a correct library; a table keyed by the argument values must not
+    have been poisoned for the proper call that follows."""
+    import copy
+
+    objs = mk_teams(model, teams)
+    kw = call_kwargs(call)
+    conv = decimal.Decimal if spec.get("as") == "decimal" else fractions.Fraction
+    what = spec.get("what")
+    try:
+        if what == "outcome":
+            key = "ranks" if "ranks" in kw else "scores" if "scores" in kw else None
+            if key is None:
+                return "not-applicable"
+            vals = list(kw[key])
+            i = spec.get("idx", 0) % len(vals)
+            if isinstance(vals[i], bool):
+                return "not-applicable"
+            vals[i] = conv(vals[i])
+            kw[key] = vals
+        else:
+            t = kw.get("tau", cfg["tau"])
+            kw["tau"] = conv(t)
+    except Exception:  # noqa: BLE001 - e.g. a value the conversion does not take
+        return "not-applicable"
+    try:
+        model.rate(copy.copy(objs), **kw)
+        return "completed"
+    except Exception as e:  # noqa: BLE001
+        return "raised:" + type(e).__name__
